@@ -871,14 +871,15 @@ var (
 // hstep is one recorded step of a history: node operations carry the concrete block so that the
 // same history can be replayed on a fresh node and wallet instance.
 type hstep struct {
-	Kind   string // attach | detach | announce | deliver | serve | import | importJSON | newAddress | remove
+	Kind   string // attach | detach | announce | deliver | serve | import | importJSON | newAddress | remove | tx
 	Block  *massutil.Block
 	Msg    *wire.MsgBlock
 	Wallet string
 	Class  uint16
 	Keys   *sim.WalletKeys
 	Pass   string
-	JSON   string // exported keystore (importJSON)
+	JSON   string      // exported keystore (importJSON)
+	Tx     *wire.MsgTx // unconfirmed transaction handed to the wallet (tx)
 }
 
 func (w *World) record(s hstep) {
